@@ -51,7 +51,7 @@ ASSUMPTIONS = ['roman_standard is structural: thousands prefix by induction, the
                '\\renewcommand{\\thec} is generated at the top level of the body only (it is local to its group), with \\the... references going strictly upwards (no cycles); '
                'a non-arabic \\thechapter is generated only while the chapter number stays positive (known finding roman-chapter-zero-float covers the other case)']
 RULE = ('num: exhaustive ranges; ctr/fmt: seeded random histories (fmt: counter values incl. 10, 20, 100, 1000 and multiples of 10; judged against the executable '
-        'nested-substitution oracle substEval); doc8: seeded random documents, 40 (thorough 400) groups of 2-4 of them parsed by a fresh Python process each (which construct a process uses first matters for per-class caches) (explicit values on the digit boundaries 9/10, 99/100 ..., 8% long documents of 10-24 units)  (~15% malformed: undefined counters, 5-deep lists); '
+        'nested-substitution oracle substEval); doc8: seeded random documents, 40 (thorough 400) groups of 2-4 of them parsed by a fresh Python process each (which construct a process uses first matters for per-class caches) (explicit values on the digit boundaries 9/10, 99/100 ..., 8% long documents of 10-24 units)  optional arguments spelled as text, empty [], blank, math or a command; (~15% malformed: undefined counters, 5-deep lists); '
         'non-trivial = spec defined and (num: always; ctr: at least one reset edge and one step; doc8: at least 3 printed numbers); distinct = distinct request line')
 EXHAUSTIVE = {'quick': 'num stream: Roman and roman for every value 1..4999, Alph/alph 1..26 (plus -60..60 for the model)',
               'thorough': 'num stream: Roman and roman for every value -100..5100, Alph/alph/arabic/fnsymbol -60..60'}
@@ -298,6 +298,15 @@ ENV_LEVEL, CMD_LEVEL = 201, 1001
 BOUNDARY_VALUES = [9, 10, 19, 20, 29, 30, 49, 50, 89, 90, 99, 100, 101, 109, 110, 199, 200, 999, 1000]
 
 
+# spellings of an optional argument that is *present*: ordinary text, empty, blank, math, a command, punctuation.
+# (An empty `[]` is still a given argument: \item[] has a label - the empty one - and does not count.)
+OPT_TEXTS = ['lbl', 'lbl', 'short text', '', '', ' ', '$\\ast$', '\\textbf{x}', '--', '1.', '(a)']
+
+
+def opt_arg(rng):
+    return '[%s]' % rng.choice(OPT_TEXTS)
+
+
 class DocGen:
     """builds LaTeX source and the event list side by side"""
 
@@ -512,7 +521,7 @@ class DocGen:
             self.src.append('\\begin{tabular}{ll}a&b\\\\ c&d\\end{tabular}')
         for _ in range(2 if rng.random() < 0.1 else 1):       # sometimes two captions in one float
             if rng.random() < 0.9:
-                self.src.append('\\caption%s{%s}' % ('[short]' if rng.random() < 0.2 else '', self.text()))
+                self.src.append('\\caption%s{%s}' % (opt_arg(rng) if rng.random() < 0.2 else '', self.text()))
                 self.ev.append('C:caption:%s:0:%d' % (kind, CMD_LEVEL))
                 self.show_positive(kind)
         self.src.append('\\end{%s}' % env)
@@ -522,7 +531,7 @@ class DocGen:
         if not self.thms:
             return self.equation()
         env, c = rng.choice(self.thms)
-        self.src.append('\\begin{%s}%s %s' % (env, '[Name]' if rng.random() < 0.2 else '', self.text()))
+        self.src.append('\\begin{%s}%s %s' % (env, opt_arg(rng) if rng.random() < 0.2 else '', self.text()))
         self.ev.append('H:%s' % env)
         r = rng.random()
         if r < 0.25: self.equation()
@@ -539,7 +548,7 @@ class DocGen:
         self.ev.append('BL')
         for _ in range(rng.randint(1, 4)):
             term = (kind == 'description') or (kind == 'enumerate' and rng.random() < 0.15)
-            self.src.append('\\item%s %s' % ('[lbl]' if term else '', self.text()))
+            self.src.append('\\item%s %s' % (opt_arg(rng) if term else '', self.text()))
             self.ev.append('I:%s:%d' % ('item' if kind == 'enumerate' else 'bullet', 1 if term else 0))
             r = rng.random()
             if r < 0.3 and self.depth < limit: self.list_()
@@ -561,7 +570,7 @@ class DocGen:
         name = name or rng.choice(self.secs + (['part'] if rng.random() < 0.05 else []))
         if star is None:
             star = rng.random() < 0.15
-        opt = '[toc]' if rng.random() < 0.15 else ''
+        opt = opt_arg(rng) if rng.random() < 0.15 else ''
         self.src.append('\\%s%s%s{%s}' % (name, '*' if star else '', opt, self.text()))
         self.ev.append('C:%s:%s:%d:%d' % (name, name, 1 if star else 0, LEVELS[name]))
         if not star and name == 'chapter':
@@ -751,6 +760,9 @@ def corpus():
         _doc_case('article', 2, '\\newtheorem{main-thm}{Theorem}[section]\\newcounter{u-d}',
                   '\\section{A}\\begin{main-thm}x\\end{main-thm}\\begin{main-thm}y\\end{main-thm}\\stepcounter{u-d}\\emph{\\arabic{u-d}}',
                   'NT:main-thm:-:section:0 N:u-d:- C:section:section:0:1 H:main-thm H:main-thm S:u-d SH:arabic:u-d'),
+        # an empty optional argument is still an argument: \item[] has a label and does not count
+        _doc_case('article', 2, '', '\\begin{enumerate}\\item a\\item[] b\\item c\\begin{enumerate}\\item x\\item[ ] y\\item[$\\ast$] z\\item w\\end{enumerate}\\item d\\end{enumerate}',
+                  'BL I:item:0 I:item:1 I:item:0 BL I:item:0 I:item:1 I:item:1 I:item:0 EL I:item:0 EL'),
         # \part is numbered in Roman
         _doc_case('book', 2, '', '\\part{P}\\chapter{A}\\part{Q}\\chapter{B}',
                   'C:part:part:0:-1 C:chapter:chapter:0:0 C:part:part:0:-1 C:chapter:chapter:0:0'),
